@@ -45,23 +45,28 @@ func (b *Builder) id(v ssa.Value) int {
 	if n, ok := b.allocN[v]; ok {
 		return n + b.IDOff
 	}
-	n := 0
-	name := v.Name()
-	if len(name) > 1 && name[0] == 't' {
-		for _, c := range name[1:] {
-			if c < '0' || c > '9' {
-				n = 0
-				break
-			}
-			n = n*10 + int(c-'0')
-		}
-		n++
-	}
+	n := regID(v)
 	if n == 0 {
 		n = 100000 + len(b.allocN)
 	}
 	b.allocN[v] = n
 	return n + b.IDOff
+}
+
+// regID: the numeric part of an SSA register name plus one (t17 -> 18), 0 if the value has no such name.
+func regID(v ssa.Value) int {
+	n := 0
+	name := v.Name()
+	if len(name) > 1 && name[0] == 't' {
+		for _, c := range name[1:] {
+			if c < '0' || c > '9' {
+				return 0
+			}
+			n = n*10 + int(c-'0')
+		}
+		n++
+	}
+	return n
 }
 
 func paramIndex(p *ssa.Parameter) int {
@@ -169,6 +174,11 @@ func (b *Builder) term(v ssa.Value) *Term {
 		}
 		return &Term{Op: OUn, Str: x.Op.String(), Args: []*Term{b.Term(x.X)}}
 	case *ssa.BinOp:
+		if x.Op == token.ADD {
+			if bt, ok := x.Type().Underlying().(*types.Basic); ok && bt.Info()&types.IsString != 0 {
+				return Concat(b.Term(x.X), b.Term(x.Y)) // string concatenation is not commutative
+			}
+		}
 		return Bin(x.Op.String(), b.Term(x.X), b.Term(x.Y))
 	case *ssa.Phi:
 		if b.PhiChoice != nil {
